@@ -1,7 +1,7 @@
 (* C12 — property theorems (request media parsed at most once; error caching; handler glue;
-   response render cache).  The JSON/form codecs are in PropsCodec.v. *)
-From Coq Require Import ZArith List Bool Arith.
-From Falcon.C12 Require Import Model Spec Proofs.
+   response render cache; the JSON codec round trip). *)
+From Coq Require Import ZArith NArith List Bool Arith.
+From Falcon.C12 Require Import Model Spec Proofs Json JsonProofs.
 Import ListNotations.
 
 (* Every call answers from the first handler invocation: later calls return the same object
@@ -85,3 +85,58 @@ Example C12_render_example :
   snd (prun pinit [SetMedia (Some 1); Render; Render; SetMedia (Some 2); Render; SetText (Some 3); Render]) =
   [None; Some (BMedia 1); Some (BMedia 1); None; Some (BMedia 2); None; Some (BText 3)].
 Proof. reflexivity. Qed.
+
+(* ------------------------------------------------------------------ JSON codec (Json.v) *)
+
+(* The parser (model of json.loads) inverts the printer (model of
+   json.dumps(ensure_ascii=False)) on every float-free document whose objects have pairwise
+   distinct keys: any depth, any size, integers of any magnitude, strings over arbitrary code
+   points (escape-worthy, DEL, non-ASCII, astral, even lone surrogates at this level). *)
+Theorem C12_json_roundtrip : forall d, wf d -> parse (print d) = Some d.
+Proof. exact json_roundtrip. Qed.
+Print Assumptions C12_json_roundtrip.
+
+(* Without the distinct-keys hypothesis the parser returns the dict(pairs) reading: a repeated
+   key keeps its first position and takes its last value (json.loads). *)
+Theorem C12_json_roundtrip_norm : forall d, parse (print d) = Some (norm d).
+Proof. exact json_roundtrip_norm. Qed.
+Print Assumptions C12_json_roundtrip_norm.
+
+(* Inside any context: the document is read back and the following text is left untouched
+   (an integer must not be followed by a digit), with any fuel >= the length of its text. *)
+Theorem C12_json_roundtrip_rest : forall d rest fuel,
+  (length (print d) <= fuel)%nat -> head_not_digit rest ->
+  parse_value fuel (print d ++ rest) = Some (norm d, rest).
+Proof. exact json_roundtrip_rest. Qed.
+Print Assumptions C12_json_roundtrip_rest.
+
+(* Two different documents never serialize to the same text. *)
+Theorem C12_json_print_injective : forall d1 d2, wf d1 -> wf d2 -> print d1 = print d2 -> d1 = d2.
+Proof. exact print_injective. Qed.
+Print Assumptions C12_json_print_injective.
+
+(* Non-vacuity: an object with the keys k-quote and the empty string; the first maps to an array
+   of 10**30, an object (newline -> null) and the string U+1F600 backslash U+0001 e-acute, the
+   second to true.  The expected text was produced by json.dumps(ensure_ascii=False). *)
+Definition ex_doc : jv :=
+  JObj [([107; 34]%N, JArr [JInt (10 ^ 30); JObj [([10%N], JNull)]; JStr [128512; 92; 1; 233]%N]);
+        ([], JBool true)].
+
+Example C12_json_example :
+  wf ex_doc /\
+  print ex_doc =
+  [123; 34; 107; 92; 34; 34; 58; 32; 91; 49; 48; 48; 48; 48; 48; 48; 48; 48; 48; 48; 48; 48; 48; 48;
+   48; 48; 48; 48; 48; 48; 48; 48; 48; 48; 48; 48; 48; 48; 48; 48; 44; 32; 123; 34; 92; 110; 34; 58;
+   32; 110; 117; 108; 108; 125; 44; 32; 34; 128512; 92; 92; 92; 117; 48; 48; 48; 49; 233; 34; 93; 44;
+   32; 34; 34; 58; 32; 116; 114; 117; 101; 125]%N /\
+  parse (print ex_doc) = Some ex_doc.
+Proof.
+  split; [| split; vm_compute; reflexivity].
+  repeat constructor; cbn; intuition discriminate.
+Qed.
+
+(* duplicate keys: the pairs a:1, b:2, a:3 read back as a:3, b:2 *)
+Example C12_json_dup_example :
+  parse (print (JObj [([97%N], JInt 1); ([98%N], JInt 2); ([97%N], JInt 3)])) =
+  Some (JObj [([97%N], JInt 3); ([98%N], JInt 2)]).
+Proof. vm_compute. reflexivity. Qed.
